@@ -471,7 +471,7 @@ func (m *Machine) opaqueIface(pkg, typ, payload string) Value {
 	if p == nil || p.Type(typ) == nil {
 		m.fail("unsupported", "type "+pkg+"."+typ+" not loaded")
 	}
-	return Iface{T: types.NewPointer(p.Type(typ).Type()), V: newCell(&Opaque{Kind: pkg + "." + typ, X: payload})}
+	return Iface{T: ptrTo(p.Type(typ).Type()), V: newCell(&Opaque{Kind: pkg + "." + typ, X: payload})}
 }
 
 func (m *Machine) buf(p Ptr) *[]Value {
@@ -575,7 +575,7 @@ func strsVal(ss []string) Value {
 // errorValue2 builds an error whose message may be a symbolic string
 func (m *Machine) errorValue2(msg Value) Value {
 	ep := m.prog.ImportedPackage("errors")
-	t := types.NewPointer(ep.Type("errorString").Type())
+	t := ptrTo(ep.Type("errorString").Type())
 	return Iface{T: t, V: newCell(Struct{msg})}
 }
 
@@ -733,7 +733,7 @@ func (m *Machine) errorText(v Iface) (string, bool) {
 		var parts []string
 		sl := v.V.(*SliceV)
 		for _, e := range sl.A {
-			s, _ := m.errorText(Iface{T: types.NewPointer(m.prog.ImportedPackage("github.com/buildbuildio/pebbles/gqlerrors").Type("Error").Type()), V: e})
+			s, _ := m.errorText(Iface{T: ptrTo(m.prog.ImportedPackage("github.com/buildbuildio/pebbles/gqlerrors").Type("Error").Type()), V: e})
 			parts = append(parts, s)
 		}
 		return strings.Join(parts, ". "), true
@@ -770,7 +770,7 @@ func init() {
 				walk(f)
 			}
 			if t, ok := mem.(*ssa.Type); ok {
-				for _, tt := range []types.Type{t.Type(), types.NewPointer(t.Type())} {
+				for _, tt := range []types.Type{t.Type(), ptrTo(t.Type())} {
 					ms := m.prog.MethodSets.MethodSet(tt)
 					for i := 0; i < ms.Len(); i++ {
 						if f := m.prog.MethodValue(ms.At(i)); f != nil {
